@@ -640,3 +640,434 @@ example : ((lexAll 50 10 (fromReader 8 [.give 2, .fail, .give 1, .failForever] [
   decide +kernel
 
 end Jomini.TextReader
+
+/-! ## a persistent fault that is reached always ends in an error -/
+
+namespace Jomini.TextReader
+open Jomini
+
+/-- outcome of a `next` call on a reader that can never see the end of the input: a token (and the property is kept) or
+an error other than `Eof` (property kept) — never `Ok(None)`. -/
+def ResN (P : Reader → Prop) : Res (Option Token) → Prop
+  | .ok r (some _) => P r
+  | .ok _ none => False
+  | .err r e => e ≠ .eof ∧ P r
+  | _ => True
+
+/-- if `fill_buf` can never report the end of input (`Ok(0)`) on readers satisfying `P`, the reader never reports a clean
+end nor `Eof` on them. -/
+theorem run_noend {P : Reader → Prop} {E : Err → Prop} (c : Closed P P E) (nz : ∀ {r : Reader}, P r → (fillBuf r).2 ≠ .ok 0) :
+    ∀ (fuel : Nat) (call : Call) (r : Reader), P r → ResN P (run fuel call r) := by
+  intro fuel
+  induction fuel with
+  | zero => intro call r _; simp [run, ResN]
+  | succ f ih =>
+    intro call r h
+    cases call with
+    | fallback =>
+      rw [run]
+      generalize fbLoop (r.position == 0) r.win .top 0 r.bom = res
+      obtain ⟨bom, sc⟩ := res
+      cases sc with
+      | tok adv t =>
+        simp only
+        cases ha : advance { r with bom := bom } adv with
+        | none => simp [ResN]
+        | some r' => simp only [ResN]; exact c.adv (c.bom bom h) ha
+      | refill st cc o => exact ih _ _ (c.bom bom h)
+      | bomFill =>
+        simp only
+        have hP0 := c.bom bom h
+        have hf := c.fill hP0
+        have hfio := c.fillio hP0
+        have hnz := nz hP0
+        generalize fillBuf { r with bom := bom } = fr at hf hfio hnz
+        obtain ⟨r', fl⟩ := fr
+        simp only at hf hfio hnz
+        cases fl with
+        | ok n =>
+          cases n with
+          | zero => exact absurd rfl hnz
+          | succ n => exact ih _ _ (hf (by simp))
+        | full => exact ⟨by simp, hf (by simp)⟩
+        | io => exact ⟨by simp, hfio rfl⟩
+    | refill st carry off =>
+      rw [run]
+      cases ha : advance r (r.win.length - carry) with
+      | none => simp [ResN]
+      | some r0 =>
+        simp only
+        split
+        · simp [ResN]
+        · have h0 := c.adv h ha
+          have hf := c.fill h0
+          have hfio := c.fillio h0
+          have hnz := nz h0
+          generalize fillBuf r0 = fr at hf hfio hnz
+          obtain ⟨r1, fl⟩ := fr
+          simp only at hf hfio hnz
+          cases fl with
+          | full => exact ⟨by simp, hf (by simp)⟩
+          | io => exact ⟨by simp, hfio rfl⟩
+          | ok n =>
+            replace hf := hf (by simp)
+            cases n with
+            | zero => exact absurd rfl hnz
+            | succ n =>
+              simp only
+              cases st with
+              | none => exact ih _ _ hf
+              | quote =>
+                simp only
+                split
+                · rename_i m _
+                  cases ha2 : advance r1 (m + 1) with
+                  | none => simp [ResN]
+                  | some r2 => simp only [ResN]; exact c.adv hf ha2
+                · exact ih _ _ hf
+              | unquoted =>
+                simp only
+                split
+                · rename_i m _
+                  cases ha2 : advance r1 m with
+                  | none => simp [ResN]
+                  | some r2 => simp only [ResN]; exact c.adv hf ha2
+                · exact ih _ _ hf
+
+theorem nextOpt_noend {P : Reader → Prop} {E : Err → Prop} (c : Closed P P E) (nz : ∀ {r : Reader}, P r → (fillBuf r).2 ≠ .ok 0)
+    (fuel : Nat) (r : Reader) (h : P r) : ResN P (nextOpt fuel r) := by
+  unfold nextOpt
+  simp only
+  split
+  · exact run_noend c nz fuel .fallback r h
+  · split
+    · simp [ResN]
+    · split
+      · simp [ResN]
+      · split
+        · cases ha : advance r (leadingWhitespace _ + 1) with
+          | none => simp [ResN]
+          | some r' => simp only [ResN]; exact c.adv h ha
+        · split
+          · cases ha : advance r (leadingWhitespace _ + 1) with
+            | none => simp [ResN]
+            | some r' => simp only [ResN]; exact c.adv h ha
+          · split
+            · split
+              · rename_i j c' _
+                cases ha : advance r (if c' == 32 then j + 1 else j) with
+                | none => simp [ResN]
+                | some r' => simp only [ResN]; exact c.adv h ha
+              · exact run_noend c nz fuel .fallback r h
+              · simp [ResN]
+            · split
+              · split
+                · rename_i j _ _
+                  cases ha : advance r (j + 1) with
+                  | none => simp [ResN]
+                  | some r' => simp only [ResN]; exact c.adv h ha
+                · exact run_noend c nz fuel .fallback r h
+                · simp [ResN]
+              · exact run_noend c nz fuel .fallback r h
+
+/-- driving `next` until it stops returning tokens: never a clean end, never `Eof` -/
+theorem lexAll_noend {P : Reader → Prop} {E : Err → Prop} (c : Closed P P E) (nz : ∀ {r : Reader}, P r → (fillBuf r).2 ≠ .ok 0)
+    (fuel : Nat) : ∀ (n : Nat) (r : Reader) (acc : List Token), P r →
+    (lexAll fuel n r acc).out ≠ .end_ ∧ (lexAll fuel n r acc).out ≠ .err .eof ∧ P (lexAll fuel n r acc).final := by
+  intro n
+  induction n with
+  | zero => intro r acc h; simp [lexAll]; exact h
+  | succ n ih =>
+    intro r acc h
+    have hn := nextOpt_noend c nz fuel r h
+    rw [lexAll]
+    unfold next
+    cases hx : nextOpt fuel r with
+    | ok r' a =>
+      rw [hx] at hn
+      cases a with
+      | none => exact absurd hn (by simp [ResN])
+      | some t => simp only; exact ih r' _ hn
+    | err r' e =>
+      rw [hx] at hn
+      simp only
+      exact ⟨by simp, by simpa using hn.1, hn.2⟩
+    | panic => simp only; exact ⟨by simp, by simp, h⟩
+    | ub => simp only; exact ⟨by simp, by simp, h⟩
+    | fuel => simp only; exact ⟨by simp, by simp, h⟩
+
+/-- number of bytes the `give` steps of a schedule prefix ask for -/
+def giveSum : List Step → Nat
+  | [] => 0
+  | .give n :: t => n + giveSum t
+  | _ :: t => giveSum t
+
+/-- **the source fails at some read call and at every later one, and the input lasts until then**: the schedule is
+`pre ++ failForever :: _` where `pre` consists of transient failures and reads of at least one byte, and the bytes still
+undelivered cover what `pre` asks for (so that no read in front of the persistent failure returns 0 bytes, which is how a
+`Read` signals the end of its input).  Buffered reader (`cap ≠ 0`). -/
+def Doomed (r : Reader) : Prop :=
+  r.cap ≠ 0 ∧ ∃ pre t, r.src.sched = pre ++ .failForever :: t ∧
+    (∀ s ∈ pre, s = .fail ∨ ∃ n, s = .give (n + 1)) ∧ giveSum pre ≤ r.src.rest.length
+
+theorem Doomed.read {r : Reader} (h : Doomed r) (space : Nat) (hs : 0 < space) :
+    Doomed { r with src := (r.src.read space).1 } ∧ (r.src.read space).2 ≠ some [] := by
+  obtain ⟨hc, pre, t, hsch, hpre, hsum⟩ := h
+  unfold Src.read
+  cases pre with
+  | nil =>
+    simp only [List.nil_append] at hsch
+    rw [hsch]
+    exact ⟨⟨hc, [], t, by simp, by simp, by simp [giveSum]⟩, by simp⟩
+  | cons st pre' =>
+    simp only [List.cons_append] at hsch
+    rw [hsch]
+    rcases hpre st (by simp) with rfl | ⟨n, rfl⟩
+    · refine ⟨⟨hc, pre', t, rfl, fun s hs => hpre s (by simp [hs]), by simpa [giveSum] using hsum⟩, by simp⟩
+    · simp only [giveSum] at hsum
+      refine ⟨⟨hc, pre', t, rfl, fun s hs => hpre s (by simp [hs]), ?_⟩, ?_⟩
+      · simp only [List.length_drop]; omega
+      · simp only [ne_eq, Option.some.injEq, List.take_eq_nil_iff, not_or]
+        refine ⟨by omega, ?_⟩
+        intro he; rw [he] at hsum; simp at hsum
+
+theorem Doomed.fill {r : Reader} (h : Doomed r) : Doomed (fillBuf r).1 ∧ (fillBuf r).2 ≠ .ok 0 := by
+  unfold fillBuf
+  rw [if_neg h.1]
+  split
+  · exact ⟨h, by simp⟩
+  · rename_i hlt
+    have := h.read (r.cap - r.win.length) (by omega)
+    generalize r.src.read (r.cap - r.win.length) = res at this
+    obtain ⟨src', ob⟩ := res
+    cases ob with
+    | none => exact ⟨by obtain ⟨a, b⟩ := this.1; exact ⟨a, b⟩, by simp⟩
+    | some bs =>
+      refine ⟨by obtain ⟨a, b⟩ := this.1; exact ⟨a, b⟩, ?_⟩
+      have h2 := this.2
+      simp only [ne_eq, Option.some.injEq] at h2
+      simp only [ne_eq, Fill.ok.injEq, List.length_eq_zero_iff]
+      exact h2
+
+theorem Doomed_closed : Closed Doomed Doomed (fun _ => True) := by
+  refine { adv := ?_, bom := fun _ h => h, fill := fun h _ => h.fill.1, fillio := fun h _ => h.fill.1,
+           full := fun _ _ => trivial, io := fun _ _ => trivial, eof := trivial }
+  intro r r' k h ha
+  unfold TextReader.advance at ha
+  split at ha
+  · simp only [Option.some.injEq] at ha; subst ha; exact h
+  · simp at ha
+
+end Jomini.TextReader
+
+namespace Jomini.TextReader
+open Jomini Jomini.TextReader.Spec
+
+/-- a token decided at offset `i` consumes at least the byte at `i` -/
+theorem tokenAt_adv_pos {c : UInt8} {tl : Bytes} {i adv : Nat} {t : Token} (h : tokenAt c tl i = .tok adv t) : i + 1 ≤ adv := by
+  unfold tokenAt at h
+  split at h; · simp at h; omega
+  split at h; · simp at h; omega
+  split at h
+  · unfold quoteTok at h
+    cases hq : quoteScan tl 0 with
+    | more _ _ => rw [hq] at h; simp at h
+    | closed n => rw [hq] at h; simp at h; omega
+  have hunq : ∀ {c : UInt8} {tl : Bytes}, unqTok c tl i = .tok adv t → i + 1 ≤ adv := by
+    intro c tl h
+    unfold unqTok at h
+    cases hf : findIdx isBoundary tl 0 with
+    | none => rw [hf] at h; simp at h
+    | some k => rw [hf] at h; simp at h; omega
+  have hop2 : ∀ {p q : Op}, opTok2 p q tl i = .tok adv t → i + 1 ≤ adv := by
+    intro p q h; unfold opTok2 at h
+    cases tl with
+    | nil => simp at h
+    | cons d r => simp only at h; split at h <;> (simp at h; omega)
+  have hop1 : ∀ {o : Op}, opTok1 o tl i = .tok adv t → i + 1 ≤ adv := by
+    intro o h; unfold opTok1 at h
+    cases tl with
+    | nil => simp at h
+    | cons d r => simp only at h; split at h <;> (simp at h; omega)
+  split at h
+  · unfold atTok at h
+    cases tl with
+    | nil => simp at h
+    | cons d r =>
+      simp only at h
+      split at h
+      · cases hf : findIdx (· == 93) r 0 with
+        | none => rw [hf] at h; simp at h
+        | some k => rw [hf] at h; simp only [Scan.tok.injEq] at h; omega
+      · exact hunq h
+  split at h; · exact hop2 h
+  split at h; · exact hop2 h
+  split at h; · exact hop1 h
+  split at h; · exact hop1 h
+  split at h; · exact hop2 h
+  exact hunq h
+
+theorem fbLoop_adv_pos {pos0 : Bool} {w : Bytes} {bom b' : Bom} {adv : Nat} {t : Token}
+    (h : fbLoop pos0 w .top 0 bom = (b', .tok adv t)) : 1 ≤ adv := by
+  obtain ⟨pre, tail, bom_s, rfl, hs, ht⟩ := decompose pos0 w.length w 0 bom (Nat.le_refl _)
+  rw [hs.fbLoop] at h
+  simp only [Nat.zero_add] at ht h
+  rcases fbLoop_tail ht with ⟨_, h1⟩ | ⟨a, _, h1⟩ | ⟨c, tl, bomR, rfl, _, _, h1⟩ | ⟨r, _, _, _, h1⟩
+  · rw [h1] at h; simp at h
+  · rw [h1] at h; simp at h
+  · have := h1 []; simp only [List.append_nil] at this
+    rw [this] at h; simp only [Prod.mk.injEq] at h
+    have := tokenAt_adv_pos h.2
+    omega
+  · rw [h1] at h; simp at h
+
+/-- every token of the reference consumes at least one byte -/
+theorem specStep_adv_pos {pos0 : Bool} {bom b' : Bom} {d : Bytes} {adv : Nat} {t : Token}
+    (h : specStep pos0 bom d = some (.tok adv t b')) : 1 ≤ adv := by
+  have key : ∀ bom0, interp d (fbLoop pos0 d .top 0 bom0) = some (.tok adv t b') → 1 ≤ adv := by
+    intro bom0 hi
+    generalize hres : fbLoop pos0 d .top 0 bom0 = res at hi
+    obtain ⟨b, sc⟩ := res
+    cases sc with
+    | tok a t' =>
+      simp only [interp, Option.some.injEq, Step1.tok.injEq] at hi
+      have := fbLoop_adv_pos hres; omega
+    | bomFill => simp [interp] at hi
+    | refill st carry off =>
+      cases st with
+      | none =>
+        simp only [interp] at hi
+        split at hi
+        · simp at hi
+        · split at hi
+          · simp at hi
+          · split at hi <;> simp at hi
+      | quote => simp [interp] at hi
+      | unquoted =>
+        simp only [interp, Option.some.injEq, Step1.tok.injEq] at hi
+        cases d with
+        | nil => simp [fbLoop] at hres
+        | cons x xs => simp at hi; omega
+  unfold specStep at h
+  split at h
+  · exact key _ h
+  · exact key _ h
+
+/-- a run of `next` calls with enough fuel and enough calls ends in a clean end or an error (no panic, no UB, no
+exhausted budget), under every schedule -/
+theorem lexAll_stops (n : Nat) : ∀ (r : Reader) (pos : Nat) (bom : Bom) (d : Bytes) (f : Nat) (acc : List Token),
+    RelQ r pos bom d → d.length < n → 2 * d.length + 4 ≤ f →
+    (lexAll f n r acc).out = .end_ ∨ ∃ e, (lexAll f n r acc).out = .err e := by
+  induction n with
+  | zero => intro r pos bom d f acc _ h _; omega
+  | succ n ih =>
+    intro r pos bom d f acc hrel hn hf
+    have o := nextOpt_specQ r pos bom d f hrel hf
+    rcases o with ⟨_, r', ⟨hfull, _⟩ | hio⟩ | o
+    · right; exact ⟨.full, by simp [lexAll, next, hfull]⟩
+    · right; exact ⟨.io, by simp [lexAll, next, hio]⟩
+    · unfold OutQOk at o
+      have hsome := specStep_isSome (pos == 0) bom d
+      cases hs : specStep (pos == 0) bom d with
+      | none => rw [hs] at hsome; simp at hsome
+      | some st =>
+        rw [hs] at o
+        cases st with
+        | tok adv t b' =>
+          obtain ⟨r', hres, hrel', hle, _⟩ := o
+          have hpos := specStep_adv_pos hs
+          have := ih r' (pos + adv) b' (d.drop adv) f (t :: acc) hrel' (by simp; omega) (by simp; omega)
+          simpa [lexAll, next, hres] using this
+        | end_ b' =>
+          obtain ⟨r', hres, _⟩ := o
+          left; simp [lexAll, next, hres]
+        | eof a b' =>
+          obtain ⟨r', hres, _⟩ := o
+          right; exact ⟨.eof, by simp [lexAll, next, hres]⟩
+
+/-- **C20: a persistent source failure always ends in `Err(io)`.**  The source fails at some read call and at every later
+one: the schedule is `pre ++ failForever :: t`, where `pre` — the calls in front of the persistent failure — consists of
+transient failures and reads of at least one byte, and the input is long enough to serve them (`giveSum pre ≤ |data|`:
+otherwise a read in front of the failure returns 0 bytes, which is how a `Read` signals the end of its input, and the
+reader legitimately ends there without ever calling the failing source).  Then, for EVERY buffer capacity ≥ 1, driving
+`next` until it returns something other than a token
+
+* never ends in a clean end (`Ok(None)`) and never in `Eof`;
+* ends in an error, which is `Err(io)` or — only when a token, comment or look-ahead of the input does not fit the buffer
+  (`cap < need data`) — `BufferFull`; with a buffer that fits it is `Err(io)`;
+* the tokens returned before the error are a prefix of the fault-free (from-slice) token sequence; and
+* the reader stays doomed: every later call is again an error or a token still in the buffer, never a clean end
+  (`Doomed` is kept, `nextOpt_noend`). -/
+theorem C20_text_persistent_fault_errors (data : Bytes) (cap : Nat) (pre t : List Step) (hcap : 0 < cap)
+    (hpre : ∀ s ∈ pre, s = .fail ∨ ∃ n, s = .give (n + 1)) (hlast : giveSum pre ≤ data.length) (ht : WfSched t) :
+    let run := streamTokens cap (pre ++ .failForever :: t) data
+    run.out ≠ .end_ ∧ run.out ≠ .err .eof ∧
+    (run.out = .err .io ∨ (run.out = .err .full ∧ cap < need data)) ∧
+    run.toks <+: (sliceTokens data).toks ∧ Doomed run.final := by
+  intro run
+  have hw : WfSched (pre ++ .failForever :: t) := by
+    intro x hx
+    simp only [List.mem_append, List.mem_cons] at hx
+    rcases hx with hx | rfl | hx
+    · rcases hpre x hx with rfl | ⟨n, rfl⟩ <;> simp [WfStep]
+    · simp [WfStep]
+    · exact ht x hx
+  have hd : Doomed (fromReader cap (pre ++ .failForever :: t) data) :=
+    ⟨by simp [fromReader]; omega, pre, t, by simp [fromReader], hpre, by simpa [fromReader] using hlast⟩
+  have hne := lexAll_noend Doomed_closed (fun h => h.fill.2) (fuelFor data + 2 * (pre ++ Step.failForever :: t).length)
+    (fuelFor data) _ [] hd
+  have hrel : Rel (fromReader cap (pre ++ .failForever :: t) data) 0 .unknown data :=
+    ⟨rfl, rfl, by simp [fromReader], hw, by intro h; simp [fromReader] at h; omega⟩
+  have hstop := lexAll_stops (fuelFor data) _ 0 .unknown data (fuelFor data + 2 * (pre ++ Step.failForever :: t).length) []
+    (Or.inl hrel) (by simp [fuelFor]; omega) (by simp [fuelFor]; omega)
+  have hc20 := (C20_text_reader data cap (pre ++ .failForever :: t) hcap hw).1
+  have hfull : need data ≤ cap → run.out ≠ .err .full := fun hfit =>
+    lexAll_no_full (fuelFor data) _ 0 .unknown data _ [] (Or.inl hrel)
+      (by unfold need at hfit; simp only [fromReader]; omega) (by simp [fuelFor]; omega)
+  change (lexAll _ _ _ _).out ≠ _ ∧ (lexAll _ _ _ _).out ≠ _ ∧ _ at hne
+  refine ⟨hne.1, hne.2.1, ?_, ?_, hne.2.2⟩
+  · rcases hstop with h | ⟨e, h⟩
+    · exact absurd h hne.1
+    · cases e with
+      | io => left; exact h
+      | eof => exact absurd h hne.2.1
+      | full =>
+        right; refine ⟨h, ?_⟩
+        apply Nat.lt_of_not_le; intro hfit; exact hfull hfit h
+  · rcases hc20 with ⟨_, hp⟩ | ⟨he, _⟩
+    · exact hp
+    · rw [he]; exact List.prefix_refl _
+
+/-- the same for every single `next` call on a doomed reader (in particular after the first `Err(io)`, when the caller
+retries): a token that is still in the buffer, or an error other than `Eof` — never `Ok(None)` — and the reader stays
+doomed. -/
+theorem C20_text_doomed_call (r : Reader) (h : Doomed r) (fuel : Nat) : ResN Doomed (next fuel r) :=
+  nextOpt_noend Doomed_closed (fun h => h.fill.2) fuel r h
+
+-- the hypotheses are satisfiable: one short read, a transient failure, another read, then the persistent failure
+example : (∀ s ∈ [Step.give 2, .fail, .give 1], s = Step.fail ∨ ∃ n, s = .give (n + 1)) ∧
+    giveSum [Step.give 2, .fail, .give 1] ≤ [97, 61, 98, 32, 99].length ∧ WfSched [] := by
+  refine ⟨?_, by decide, by intro x hx; simp at hx⟩
+  intro s hs; simp at hs
+  rcases hs with rfl | rfl | rfl
+  · exact Or.inr ⟨1, rfl⟩
+  · exact Or.inl rfl
+  · exact Or.inr ⟨0, rfl⟩
+
+-- the exclusion is needed: a read of 0 bytes in front of the failure is the end of input; the reader ends cleanly
+example : (streamTokens 8 [.give 2, .give 5, .failForever] [97, 32]).out = .end_ := by decide +kernel
+
+/-- **the recorded finding `fault-retry-in-quoted`, on the model.**  Input `"hello world"`, buffer of 16 bytes, the source
+delivers 4 bytes and then fails once (a transient fault, in the middle of the quoted scalar).  The first `next` reports
+`Err(io)`; calling `next` AGAIN (which jomini permits) does not resume the quoted scalar: it returns the unquoted token
+`hello`, which the fault-free run never produces (that run returns the quoted scalar `hello world`).  So the clause "every
+successfully returned token equals the fault-free one" holds up to the first error only. -/
+theorem C20_known_fault_retry_in_quoted :
+    let data : Bytes := [34, 104, 101, 108, 108, 111, 32, 119, 111, 114, 108, 100, 34]
+    (match next 60 (fromReader 16 [.give 4, .fail] data) with
+     | .err r1 .io => (match next 60 r1 with | .ok _ (some t) => some t | _ => none)
+     | _ => none) = some (.unquoted [104, 101, 108, 108, 111]) ∧
+    (sliceTokens data).toks = [.quoted [104, 101, 108, 108, 111, 32, 119, 111, 114, 108, 100]] := by
+  decide +kernel
+
+end Jomini.TextReader
